@@ -407,7 +407,7 @@ private def demoFields : List Node :=
    .mk "b" true .raises .null,
    .mk "c" false .returns (.list [.obj [.mk "z" true .returns .leaf], .null])]
 private def demoReq (sched : List Nat) : Request :=
-  { docIsText := true, syntaxError := false, valid := true, opselOk := true, varsOk := true, subscriptionOp := false, serial := false,
+  { docIsText := true, syntaxError := false, valid := true, opselOk := true, varsOk := true, subscriptionOp := false, rootCollectFails := false, serial := false,
     blockingExecutor := false, fields := demoFields, sched := sched }
 example : execBody ⟨[0]⟩ (demoReq [2, 1, 0]) ≠ execBody ⟨[0]⟩ (demoReq [0, 0, 0]) := by decide
 example : (nodesOfFields [] demoFields).length = 6 := by decide
@@ -458,9 +458,9 @@ def stageShape (r : Request) : List (Stage × Bool) :=
 
 theorem stage_events_eq (cfg : Cfg) (r : Request) : stageEvents (pipeline false cfg r) = stageShape r := by
   have hb := body_has_no_stage_event cfg r
-  obtain ⟨docIsText, syntaxError, valid, opselOk, varsOk, subOp, serial, blocking, fields, sched⟩ := r
+  obtain ⟨docIsText, syntaxError, valid, opselOk, varsOk, subOp, rcf, serial, blocking, fields, sched⟩ := r
   simp only [stageEvents] at hb
-  cases docIsText <;> cases syntaxError <;> cases valid <;> cases opselOk <;> cases varsOk <;> cases subOp <;>
+  cases docIsText <;> cases syntaxError <;> cases valid <;> cases opselOk <;> cases varsOk <;> cases subOp <;> cases rcf <;>
     simp [pipeline, execute, stageShape, stageEvents, stageStart, stageEnd, List.filterMap_append, hb, stageOf]
 
 /-- **stages_nested** — for every request, every outcome of every stage, every executor,
@@ -474,22 +474,34 @@ theorem stages_nested (cfg : Cfg) (r : Request) :
     ∧ (stageEvents (pipeline false cfg r)).head? = some (.query, true)
     ∧ (stageEvents (pipeline false cfg r)).getLast? = some (.query, false) := by
   rw [stage_events_eq]
-  obtain ⟨docIsText, syntaxError, valid, opselOk, varsOk, subOp, serial, blocking, fields, sched⟩ := r
-  cases docIsText <;> cases syntaxError <;> cases valid <;> cases opselOk <;> cases varsOk <;> cases subOp <;>
+  obtain ⟨docIsText, syntaxError, valid, opselOk, varsOk, subOp, rcf, serial, blocking, fields, sched⟩ := r
+  cases docIsText <;> cases syntaxError <;> cases valid <;> cases opselOk <;> cases varsOk <;> cases subOp <;> cases rcf <;>
     simp [stageShape, bracket]
 
 /-- the stage hooks of a stage that reported errors are still paired: syntax error, validation
     errors, operation / variable errors (execution never starts) -/
-example : stageShape { docIsText := true, syntaxError := true, valid := true, opselOk := true, varsOk := true, subscriptionOp := false,
+example : stageShape { docIsText := true, syntaxError := true, valid := true, opselOk := true, varsOk := true, subscriptionOp := false, rootCollectFails := false,
                        serial := false, blockingExecutor := true, fields := [], sched := [] }
     = [(.query, true), (.parsing, true), (.parsing, false), (.query, false)] := by decide
+
+private def emptyRootReq (rcf serial blocking : Bool) : Request :=
+  { docIsText := false, syntaxError := false, valid := true, opselOk := true, varsOk := true,
+    subscriptionOp := false, rootCollectFails := rcf, serial := serial, blockingExecutor := blocking,
+    fields := [], sched := [] }
+
+/-- a root selection set that collects to NOTHING (every field excluded by `@skip` / `@include`), and one whose
+    directive condition cannot be evaluated: the execution stage is started AND ended, inside the query stage -/
+example : stageEvents (pipeline false ⟨[0]⟩ (emptyRootReq false false false))
+    = [(.query, true), (.validation, true), (.validation, false), (.execution, true), (.execution, false), (.query, false)] := by decide
+example : stageEvents (pipeline false ⟨[0]⟩ (emptyRootReq true true true))
+    = [(.query, true), (.validation, true), (.validation, false), (.execution, true), (.execution, false), (.query, false)] := by decide
 
 /-- Defect N1, machine-checked on the model of the UNFIXED `_graphql.py` (`return _abort(...)`
     inside `except`, before the `finally`): on a syntax error the trace is
     `query+ parsing+ query- parsing-`, which is not well bracketed. -/
 theorem stages_not_nested_before_fix_N1 :
     ∃ (cfg : Cfg) (r : Request), bracket [] (stageEvents (pipeline true cfg r)) = false :=
-  ⟨⟨[]⟩, { docIsText := true, syntaxError := true, valid := true, opselOk := true, varsOk := true, subscriptionOp := false,
+  ⟨⟨[]⟩, { docIsText := true, syntaxError := true, valid := true, opselOk := true, varsOk := true, subscriptionOp := false, rootCollectFails := false,
            serial := false, blockingExecutor := true, fields := [], sched := [] }, by decide⟩
 
 
